@@ -168,8 +168,11 @@ def run_jobs(ctx, binp, jobs, nproc=None):
         out = {}
         remaining = list(chunk)
         guard = 0
+        ntimeouts = 0
         while remaining and guard < len(chunk) + 2:
             guard += 1
+            if ntimeouts >= 4:
+                break          # circuit breaker: this code path hangs on everything; the timeouts seen so far are reported
             lim = sum(j.get("limit_ms", 20000) for j in remaining) / 1000.0 + 30
             text = "\n".join(json.dumps({k: v for k, v in j.items() if k != "heavy"}) for j in remaining) + "\n"
             try:
@@ -189,6 +192,8 @@ def run_jobs(ctx, binp, jobs, nproc=None):
                     continue
                 if "id" in o:
                     out[o["id"]] = o
+                    if o.get("kind") == "timeout":
+                        ntimeouts += 1
             for j in remaining:
                 if j["id"] in out:
                     done += 1
